@@ -119,15 +119,16 @@ def judge(rec, kind, e, fault):
 
 
 def make_h(kind):
-    def h(e, fault, k):
+    def h(e, fault, k, how=0):
         with notrace():
             e_, fault_ = conc(e, len(ENDINGS)), conc(fault, 4)
             k_ = conc(k, KMAX[kind] + 1) if fault_ else 0
             ev("c01", wsim.KIND_NAMES[kind], ending_name(e_), fault_, k_)
-            rec = wscen.scenario(kind, ENDINGS[e_][0], ENDINGS[e_][1], fault_, k_)
+            how_ = conc(how, 3) if fault_ == 0 else 0
+            rec = wscen.scenario(kind, ENDINGS[e_][0], ENDINGS[e_][1], fault_, k_, how=how_)
             if rec["sim_errors"]:
                 raise RuntimeError("simulation kernel errors: %r" % (rec["sim_errors"],))
-            ev(str(rec.get("label")))
+            ev(str(rec.get("label")), how_)
             sig, interesting = judge(rec, kind, e_, fault_)
             if sig is not None:
                 sig = "%s|%s" % (sig, wsim.KIND_NAMES[kind])
@@ -159,14 +160,14 @@ _FUNCS = ["pyworkers.worker:Worker.result", "pyworkers.worker:Worker.error", "py
 
 def _harness(kind):
     name = wsim.KIND_NAMES[kind]
-    params = OrderedDict([("e", (0, len(ENDINGS) - 1)), ("fault", (0, 3)), ("k", (0, KMAX[kind]))])
+    params = OrderedDict([("e", (0, len(ENDINGS) - 1)), ("fault", (0, 3)), ("k", (0, KMAX[kind])), ("how", (0, 2))])
     if wsim.is_thread_kind(kind):
         flt = (lambda f: f["fault"] in (0, 1))
     elif wsim.is_remote_kind(kind):
         flt = None
     else:
         flt = (lambda f: f["fault"] != 3)
-    quick = {"ranges": {"e": (0, 8)}, "partition": ["fault", "e"], "timeout": 300, "twin_fixed": {"fault": 1, "e": 0}}
+    quick = {"ranges": {"e": (0, 9)}, "partition": ["fault", "e"], "timeout": 300, "twin_fixed": {"fault": 1, "e": 0}}
     thorough = {"partition": ["fault", "e"], "timeout": 900, "twin_fixed": {"fault": 1, "e": 0}}
     if flt:
         quick["filter"] = flt
@@ -216,6 +217,7 @@ SPEC = PropSpec(
         "slow forwarding thread (remote kinds, fault 3): the parent-side frontend thread sleeps 3 model seconds at its k-th statement while the parent "
         "calls wait(timeout=1) and observes; 'dead' observed then must come with a definite, final outcome",
         "virtual OS contracts: vf/simos.py (pipes, processes, sockets, threads, events, clock)",
+        "without a fault the parent gets to see the dead worker in one of three ways: wait(timeout); polling is_alive(); terminate() long after the child ended",
         "values/exceptions come from a menu (vf/targets.py) incl. an exception class that cannot be rebuilt and a value that cannot be loaded on the parent side",
     ],
     outside=["sub-statement landing points", "kills inside C code", "real kernel buffering and timing", "result larger than the pipe buffer (C02)"],
